@@ -105,6 +105,20 @@ def c06_sessions(V, tier):
     rest = [c for c in cases if len({ev["f"] for ev in c["hist"]}) < 2]
     k = 150 if tier == "quick" else 1500
     cases = multi[:k * 4 // 5] + rest[:k - min(len(multi), k * 4 // 5)]
+    # beyond TLC's length bound: seeded random histories of 5..9 notifications over the same version table (final buffers
+    # parse; okOrder = order of each file's last successful analysis, as History.tla defines it)
+    slots = sorted(table)
+    for _ in range(40 if tier == "quick" else 600):
+        L = rnd.randint(5, 9)
+        hist = [{"t": "edit", "f": (f := rnd.choice(slots)), "v": rnd.randint(1, len(table[f])), "n": "-"} for _ in range(L)]
+        last, ok_at = {}, {}
+        for i, ev in enumerate(hist):
+            last[ev["f"]] = ev["v"]
+            if table[ev["f"]][ev["v"] - 1]["valid"]:
+                ok_at[ev["f"]] = i
+        if not all(table[f][v - 1]["valid"] for f, v in last.items()):
+            continue
+        cases.append({"kind": "edits", "hist": hist, "okOrder": [f for f, _ in sorted(ok_at.items(), key=lambda kv: kv[1])]})
     base = os.path.join(C.BUILD, "ws", "lsphist6-%d" % os.getpid())
     shutil.rmtree(base, ignore_errors=True)
 
@@ -196,7 +210,11 @@ def c06_sessions(V, tier):
         if "error" in r:
             V.violation(dict(ex, error=r["error"]), "server died or stopped answering during an edit history")
             continue
-        diff = sorted(k for k in set(r["long"]) | set(r["fresh"]) if r["long"].get(k) != r["fresh"].get(k))
+        # published diagnostics are a snapshot taken when the document was notified: C06 / C19 speak about the document changed
+        # LAST only (the others' last publication legitimately reflects the index as it was then)
+        last_slot = case["hist"][-1]["f"]
+        diff = sorted(k for k in set(r["long"]) | set(r["fresh"]) if r["long"].get(k) != r["fresh"].get(k)
+                      and not (k.endswith(":diag") and k != last_slot + ":diag"))
         if diff:
             k = diff[0]
             V.violation(dict(ex, differing_answers=diff[:12], first={"key": k, "long_lived": r["long"].get(k), "fresh": r["fresh"].get(k)}),
